@@ -159,7 +159,8 @@ def canon(x):
 #      dropped only when its value is identical to .target.
 #  N2  a Shape with no elements == its subject  (upstream test_edgeql_syntax_shape_64 expects `Foo{}` -> `Foo`);
 #      N2': the path that results is flattened the way the grammar flattens it: `(a.b {}).c` == `a.b.c`, `(.a {}).c` == `.a.c`;
-#      N2'': the sign is folded the way the grammar folds it: `-(1 {})` == `-1`
+#      N2'': the sign is folded the way the grammar folds it: `-(1 {})` == `-1`;
+#      N2-3: indirections are flattened the way the grammar flattens them: `x[1] {}[2]` == `x[1][2]`
 #  N3  CreateMigration.parent ObjectRef('initial')  ==  no parent (edb/schema/migrations.py treats them alike)
 #  N4  trigger / rewrite / access-policy kind lists are sets (printed sorted, duplicates merged)
 #  N5  (inside an SDL Schema node, printer not `unsorted`) the order of declarations / commands in a body is
@@ -177,6 +178,13 @@ def normalise(n, sort_schema=False, in_schema=False):
         d = dict((k, v) for k, v in fields)
         if name == 'Shape' and 'elements' not in d and 'expr' in d:
             return d['expr']                                                    # N2
+        if name == 'Indirection' and _is_node(d.get('arg')) and d['arg'][0] == 'Indirection' \
+                and isinstance(d.get('indirection'), list) and isinstance(nfields(d['arg']).get('indirection'), list):
+            # N2-3 (never produced by the parser itself: reduce_Expr_IndirectionEl appends to an Indirection operand, also
+            # through parentheses; only N2 exposes it): `x[1] {}[2]` == `x[1][2]`
+            inner = nfields(d['arg'])
+            fields = [[k, inner['arg'] if k == 'arg' else (inner['indirection'] + v if k == 'indirection' else v)] for k, v in fields]
+            d = dict((k, v) for k, v in fields)
         if name == 'UnaryOp' and d.get('op') == '-' and _is_node(d.get('operand')) and d['operand'][0] == 'Constant' \
                 and nfields(d['operand']).get('kind') in NUMKINDS and isinstance(nfields(d['operand']).get('value'), str):
             # N2'' (never produced by the parser itself: reduce_MINUS_Expr folds the sign into every numeric constant;
@@ -459,6 +467,13 @@ def ast_features(c):
                 feats.add('alter-empty')
             if cls == 'NestedQLBlock':
                 feats.add('nested-ql-block')
+            if cls.startswith('CreateConcrete') and d.get('declared_overloaded') is True and _is_node(d.get('target')) \
+                    and not d['target'][0].startswith('Type'):
+                feats.add('sdl-overloaded-computed')
+            if cls == 'CreateLink' and isinstance(d.get('commands'), list) and any(
+                    _is_node(z) and z[0] == 'CreateConcreteUnknownPointer' and _is_node(nfields(z).get('target'))
+                    and not nfields(z)['target'][0].startswith('Type') for z in d['commands']):
+                feats.add('link-unknown-pointer-computed')
             if cls == 'CreateOperator' and 'commands' in d and _is_node(d.get('returning')) and d['returning'][0] == 'TypeOf':
                 feats.add('operator-returning-typeof-block')
             if cls == 'CreateTrigger' and _is_node(d.get('name')) and 'module' in nfields(d['name']):
